@@ -835,11 +835,6 @@ func (e *Engine) call(fi *fnInfo, st *State, in *ssa.Call) []*State {
 }
 
 // Scanners that deliberately leave the cursor where the scan failed.
-// Scanners that deliberately leave the cursor where the scan failed and whose callers cannot be shown, from the
-// shape of the code, to turn that into an error (the css and js cases of this kind are decided by failurePropagated).
-var restoreExceptions = map[string]string{
-	"(*json.Parser).consumeStringToken": "documented: the caller picks up the movement to tell NUL from EOF; the failure is turned into an error",
-}
 
 // reaches: does fn (transitively) perform cursor operations? Functions the
 // call graph does not know (bound-method wrappers) are scanned one level deep.
@@ -1565,11 +1560,9 @@ func (e *Engine) summaries(callee *ssa.Function, st *State, args []AbsVal) []sum
 		// R-RESTORE: a scanner that reports failure without recording an error leaves the cursor where it started
 		if len(x.ret) == 1 && x.at != nil && x.st.errSet != 1 && !x.st.havoc {
 			if c, ok := x.ret[0].constInt(); ok && c == 0 && isFailureResult(callee) && callee.Synthetic == "" {
-				key := fnLabel(callee) + " failure restores the position"
-				if _, exc := restoreExceptions[fnLabel(callee)]; !exc && !e.failurePropagated(callee) {
-					e.check(x.st, "R-RESTORE", key, x.at.Pos(), x.st.dispLo == 0 && x.st.dispHi == 0,
-						fmt.Sprintf("the scanner returns its failure value after a net cursor displacement in [%s,%s]: the bytes moved over end up in the next token (or are rescanned) although the caller was told nothing was consumed", infs(x.st.dispLo), infs(x.st.dispHi)))
-				}
+				// judged when the engine is done (finishRestore): only a scanner that restores the position on some
+				// failing path is held to restoring it on all of them
+				e.failExits[callee] = append(e.failExits[callee], failExit{st: x.st.clone(), pos: x.at.Pos(), lo: x.st.dispLo, hi: x.st.dispHi, moved: x.st.moves > 0})
 			}
 		}
 		// callee-local values are of no use to the caller
